@@ -500,10 +500,11 @@ example : lookup (run (start [] .step) demoLambda).ftrace 1 = some .patched := b
 example : (run (start [] .step) demoLambda).prompts = [(some 1, .line), (some 5, .call), (some 6, .line), (some 6, .ret), (some 3, .line)] := by decide
 
 /-- The model encodes nextline's own versions of exactly these `Pdb`/`Bdb` methods (`set_continue` keeps the trace function,
-`stop_here`/`set_until` accept a frame without a line number, `get_stack` selects the event's frame, `cmdloop` refuses to run
+`stop_here`/`set_until` accept a frame without a line number, `get_stack` selects the event's frame, `emptyline` does nothing (a blank command is
+not a resuming command: the model's commands are the resuming ones, F-J1), `cmdloop` refuses to run
 outside a trace call): the table generated from `CustomizedPdb` must list them — and nothing else, or the model may be missing
 an override. -/
 theorem pdb_overrides_as_modelled :
-    NLV.Generated.Spawned.pdbOverrides = ["_cmdloop", "cmdloop", "get_stack", "set_continue", "set_until", "stop_here"] := by decide
+    NLV.Generated.Spawned.pdbOverrides = ["_cmdloop", "cmdloop", "emptyline", "get_stack", "set_continue", "set_until", "stop_here"] := by decide
 
 end NLV.C05
